@@ -843,6 +843,14 @@ impl<'a> Interp<'a> {
                             name: a.name.clone(),
                             alts: vec![],
                         }),
+                        // (its contents are not a list of items: one syntax error, nothing in it is read)
+                        AttrKind::List(items, d) if *d >= 10 && items.len() >= 2 => st.errors.push(Leaf {
+                            kind: LeafKind::BadAttribute,
+                            path: vec![],
+                            at: Where::Attr(a.gid),
+                            name: a.name.clone(),
+                            alts: vec![],
+                        }),
                         AttrKind::List(items, _) => {
                             if !items.is_empty() {
                                 self.struct_items(r, fs, r.allow_unknown, items, &mut st);
